@@ -98,14 +98,28 @@ func main() {
 		}
 	}
 	sort.Strings(kws)
+	// the three naming positions, at statement level and inside every kind of statement that embeds a query (the
+	// property does not restrict where the SELECT stands)
+	ctxs := []struct{ name, pre, post string }{
+		{"", "", ""}, {"@from-subquery", "SELECT * FROM (", ")"}, {"@create-view", "CREATE VIEW v AS ", ""},
+		{"@insert-select", "INSERT INTO t2 ", ""}, {"@cte", "WITH c AS (", ") SELECT 1"}, {"@union-branch", "SELECT 0 UNION ALL ", ""},
+		{"@explain", "EXPLAIN ", ""}, {"@in-subquery", "SELECT x IN (", ")"}, {"@create-matview", "CREATE MATERIALIZED VIEW mv ENGINE = Memory AS ", ""},
+		{"@create-table-as", "CREATE TABLE t3 ENGINE = Memory AS ", ""}, {"@paren", "(", ")"},
+	}
 	for i, kw := range kws {
-		for _, sp := range cases(kw, i) {
-			d := probe("SELECT t."+sp+" FROM t", "Identifier t."+sp)
-			report(d == "", kw, "column-after-dot", sp, d)
-			d = probe("SELECT 1 AS "+sp, "Literal UInt64_1 (alias "+sp+")")
-			report(d == "", kw, "column-alias", sp, d)
-			d = probe("SELECT 1 FROM t AS "+sp, "TableIdentifier t (alias "+sp+")")
-			report(d == "", kw, "table-alias", sp, d)
+		for ci, c := range ctxs {
+			sps := cases(kw, i)
+			if ci > 0 {
+				sps = sps[1:3] // lower case and one mixed spelling inside the embedding contexts
+			}
+			for _, sp := range sps {
+				d := probe(c.pre+"SELECT t."+sp+" FROM t"+c.post, "Identifier t."+sp)
+				report(d == "", kw, "column-after-dot"+c.name, sp, d)
+				d = probe(c.pre+"SELECT 1 AS "+sp+c.post, "Literal UInt64_1 (alias "+sp+")")
+				report(d == "", kw, "column-alias"+c.name, sp, d)
+				d = probe(c.pre+"SELECT 1 FROM t AS "+sp+c.post, "TableIdentifier t (alias "+sp+")")
+				report(d == "", kw, "table-alias"+c.name, sp, d)
+			}
 		}
 	}
 	fmt.Printf("SUMMARY\tkeywords=%d\tprobes=%d\tbad=%d\n", len(kws), n, bad)
